@@ -6,7 +6,7 @@
 //verif:cover VerifC02Key multi-leaf exact-multiple empty partial-tail
 //verif:assume many leaves: leaf size 2, contents of 33..37 bytes (17..19 leaves: beyond one 16-key batch of the root hasher), the bytes of the first, the 16th and the 17th leaf symbolic, the others a fixed pattern
 //verif:cover VerifC02ManyLeaves seventeen-leaves partial-tail
-//verif:cover VerifC02Dedup duplicate-found emptied-blob-rewritten crc-mismatch-rewritten different-content prefixed
+//verif:cover VerifC02Dedup duplicate-found emptied-blob-rewritten crc-mismatch-rewritten different-content prefixed store-without-touch
 package cafs
 
 import (
@@ -185,6 +185,17 @@ func VerifC02Dedup() {
 	}
 	before := vSnapshot(store)
 	store.ops = nil
+	// backends without Touch (S3 reports "not implemented"): a duplicate is then written again, with the same bytes
+	noTouch := vChoose("touchUnsupported", 2) == 1
+	if noTouch {
+		vCover("store-without-touch")
+		store.fail = func(op, key string) error {
+			if op == "touch" {
+				return errVFault
+			}
+			return nil
+		}
+	}
 	same := vChoose("secondContent", 2) == 0
 	b := a
 	if !same {
@@ -213,7 +224,7 @@ func VerifC02Dedup() {
 		}
 		for _, o := range store.ops {
 			if o.Op == "put" {
-				vAssert(o.Key == damaged, "healthy-present-blobs-are-not-rewritten")
+				vAssert(o.Key == damaged || noTouch, "healthy-present-blobs-are-not-rewritten")
 			}
 		}
 		if damaged != "" {
